@@ -401,6 +401,9 @@ def check(pid, tier, nshards, scale):
         "notes": sorted(set(tot["notes"]))[:20],
         "exhaustive": False,
     }
+    if tot["counters"].get("exploration_states"):
+        cov["states"] = int(tot["counters"]["exploration_states"])
+        cov["transitions"] = int(tot["counters"].get("exploration_transitions", 0))
     ev = {
         "property_id": pid, "tier": tier, "seed": seed, "level": "exploration", "coverage": cov,
         "assumptions": cfg.get("assumptions", []),
